@@ -26,6 +26,7 @@ ToSet(s) == {s[i] : i \in 1..Len(s)}
 LId(x) == [ec |-> x.ec, em |-> x.em, tc |-> x.tc, seq |-> x.seq]
 LSt(x) == [ec |-> x.ec, em |-> x.em, tc |-> x.tc]
 LVal(x) == [id |-> LId(x.id), tag |-> x.tag]
+RangeSet(rs) == UNION {rs[i][1]..rs[i][2] : i \in 1..Len(rs)}      \* [[lo, hi], ...] -> set of sequences
 LVals(q) == {LVal(q[i]) : i \in 1..Len(q)}
 LOptVal(q) == IF Len(q) = 0 THEN Nil ELSE LVal(q[1])
 LGovEntry(e) == [tc |-> e.tc, seq |-> e.seq, val |-> LVal(e)]
@@ -44,7 +45,7 @@ StoreAcked(tab, vs) ==
     /\ up
     /\ Becomes(StoreAckRun(Cur, tab, vs, 1))
     /\ ret' = [op |-> "StoreAcked"]
-    /\ UNCHANGED up
+    /\ UNCHANGED ctl
 
 \* Kill: the content found afterwards is what the lookups after the following Reopen returned - those of the first,
 \* sequential pass over all identifiers (each identified right after the call); the harness then repeats the lookups
@@ -63,12 +64,13 @@ FoundAfter(i) ==
     ELSE [x \in DOMAIN acked |-> acked[x]]     \* no successful reopen follows: the Reopen line is the one rejected
 
 ResetState ==
-    /\ vaas' = <<>> /\ up' = TRUE /\ acked' = <<>> /\ pending' = <<>> /\ written' = <<>>
+    /\ vaas' = <<>> /\ up' = TRUE /\ opening' = FALSE /\ acked' = <<>> /\ pending' = <<>> /\ written' = <<>>
     /\ ret' = [op |-> "Init"]
 
 Apply(ln) ==
     CASE ln.ev = "Reset"       -> ResetState
       [] ln.ev = "Store"       -> Store(LVal(ln.a.v))
+      [] ln.ev = "StoreRun"    -> StoreRun(LSt(ln.a.st), RangeSet(ln.a.ranges), ln.a.tag)
       [] ln.ev = "StoreClosed" -> StoreWhileClosed(LVal(ln.a.v), ln.s.err = "")     \* the logged reply decides
       [] ln.ev = "Ack"         -> Ack(LId(ln.a.id))
       [] ln.ev = "StoreAcked"  -> StoreAcked(Trace[ResetLine(l)].a.ids, ln.a.vs)
@@ -79,7 +81,9 @@ Apply(ln) ==
       [] ln.ev = "NonGovBatch" -> NonGovBatch(LSt(ln.a.st), ToSet(ln.a.seqs))
       [] ln.ev = "Kill"        -> CrashTo(FoundAfter(l))
       [] ln.ev = "Close"       -> Close
-      [] ln.ev = "Reopen"      -> IF ln.s.ok THEN Reopen ELSE FALSE      \* ReopenAlways: a failed reopen matches nothing
+      [] ln.ev = "OpenBegin"   -> OpenBegin                              \* a process entered db.Open (and may be killed in it)
+      [] ln.ev = "Reopen"      -> IF ~ln.s.ok THEN FALSE                 \* ReopenAlways: a failed reopen matches nothing
+                                  ELSE IF opening THEN OpenEnd ELSE Reopen
       [] OTHER                 -> FALSE
 
 \* Returned bytes stay what they were: s.held (when logged) identifies the slices the call returned once more, after
@@ -93,6 +97,7 @@ HeldOK(s, kind) ==
 \* The result the code reported must be the one the specification requires (ret, set by the action).
 Matches(ln) ==
     CASE ln.ev = "Store"       -> ln.s.err = ""
+      [] ln.ev = "StoreRun"    -> ln.s.err = ""
       [] ln.ev = "Get"         -> /\ ln.s.err = ""
                                   /\ ret.res = LOptVal(ln.s.res)
                                   /\ ln.s.code = (IF ret.res = Nil THEN "NotFound" ELSE "OK")
